@@ -175,6 +175,9 @@ fn c10_worker(args: &Args) {
         let tainted = rep.tainted;
         proto.send(&serde_json::to_string(&rep).unwrap());
         i += stride;
+        if i >= count {
+            proto.send("{\"done\":true}");
+        }
         if tainted && i < count {
             // continue in a fresh process image (same stdout pipe): nothing of the aborted execution survives
             drop(scratch);
@@ -260,6 +263,7 @@ fn collect(child: std::process::Child, start: u64, stride: u64, kill_after_s: u6
     let mut deadline_at = None;
     let mut next = start;
     let mut enough = false;
+    let mut finished_properly = false;
     for line in BufReader::new(out).lines() {
         let line = match line {
             Ok(l) => l,
@@ -268,6 +272,11 @@ fn collect(child: std::process::Child, start: u64, stride: u64, kill_after_s: u6
         if let Ok(v) = serde_json::from_str::<serde_json::Value>(&line) {
             if let Some(d) = v.get("deadline_at").and_then(|d| d.as_u64()) {
                 deadline_at = Some(d);
+                finished_properly = true;
+                continue;
+            }
+            if v.get("done").is_some() {
+                finished_properly = true;
                 continue;
             }
         }
@@ -298,6 +307,11 @@ fn collect(child: std::process::Child, start: u64, stride: u64, kill_after_s: u6
     if enough {
         // stopped on purpose: neither stuck nor dead
         return WorkerOut { stuck: false, reports, deadline_at: Some(next), status: std::os::unix::process::ExitStatusExt::from_raw(0), stderr, last_started: Some(next) };
+    }
+    let mut status = status;
+    if status.success() && !finished_properly && !stuck.load(std::sync::atomic::Ordering::SeqCst) {
+        // the process ended "successfully" in the middle of its work: the tree under test called exit()
+        status = std::os::unix::process::ExitStatusExt::from_raw(0x6500);
     }
     WorkerOut { stuck: stuck.load(std::sync::atomic::Ordering::SeqCst), reports, deadline_at, status, stderr, last_started: Some(next) }
 }
@@ -340,7 +354,13 @@ fn c10_parent(args: &Args) {
     // The parent never runs the tree under test inside its own process: reference emissions come from the shipped
     // binary, executions from worker / c10-try subprocesses. A tree that aborts can only take a subprocess with it.
     exec::REFERENCE_VIA_BINARY.store(true, std::sync::atomic::Ordering::SeqCst);
-    let e2_only_requested = args.get("e2-only").is_some();
+    // Names of hooked seams the tree no longer goes through (written by bin/build from rustc's unused-import warnings)
+    let bypassed: Vec<String> = std::fs::read_to_string(verif_home().join("target/e1_bypassed.txt")).map(|t| t.lines().map(str::to_string).filter(|l| !l.is_empty()).collect()).unwrap_or_default();
+    let seams_bypassed = bypassed.iter().any(|n| matches!(n.as_str(), "Command" | "ThreadPool" | "channel" | "print" | "println" | "Arguments"));
+    if seams_bypassed {
+        println!("NOTE: the tree under test no longer goes through the hooked seam(s) {bypassed:?} (it reaches the real items by another path); the in-process engine would simulate nothing there, so the E2 engine decides");
+    }
+    let e2_only_requested = args.get("e2-only").is_some() || seams_bypassed;
     let scenarios = if e2_only_requested { 0 } else { scenarios };
     if e2_only_requested {
         exec::REFERENCE_VIA_BINARY.store(true, std::sync::atomic::Ordering::SeqCst);
